@@ -12,12 +12,22 @@ use std::rc::Rc;
 struct Log {
     script: VecDeque<Resp>,
     writes: Vec<(Vec<u8>, &'static str, usize)>,
+    /// the call that offers exactly this (the data) accepts `pre` bytes - whichever inner write of the call that is: the
+    /// script must not depend on how many inner writes the implementation makes for the codes
+    data: Vec<u8>,
+    pre: usize,
 }
 struct W(Rc<RefCell<Log>>);
 impl Write for W {
     fn write(&mut self, buf: &[u8]) -> io::Result<usize> {
         let mut s = self.0.borrow_mut();
-        let r = s.script.pop_front().unwrap_or(Resp::All);
+        let mut r = s.script.pop_front().unwrap_or(Resp::All);
+        if !s.data.is_empty() && buf == &s.data[..] {
+            // the data write: a scripted failure stands, otherwise it accepts the scripted whole-character prefix
+            if matches!(r, Resp::All | Resp::Short(_)) {
+                r = if s.pre < s.data.len() { Resp::Short(s.pre) } else { Resp::All };
+            }
+        }
         let (tag, k, res) = match r {
             Resp::All => ("ok", buf.len(), Ok(buf.len())),
             Resp::Short(k) => ("ok", k.min(buf.len()), Ok(k.min(buf.len()))),
@@ -47,21 +57,19 @@ pub fn replay(path: &str, out: &str) -> Value {
         let data = crate::bytes_of(&c["data"]);
         let fail_at = c["failAt"].as_u64().unwrap() as usize;
         let pre = c["pre"].as_u64().unwrap() as usize;
-        let short_code = c["shortCode"].as_bool().unwrap();
-        let data_pos = 1 + (fg != 16) as usize + (bg != 16) as usize;
+        let short_at = c["shortAt"].as_u64().unwrap() as usize;
+        let short_code = short_at != 0;
         let mut script = Vec::new();
         for k in 1..=6 {
             script.push(if k == fail_at {
                 crate::stream::resp_of(&c["kind"])
-            } else if k == data_pos && pre < data.len() {
-                Resp::Short(pre)
-            } else if k == 1 && short_code {
+            } else if k == short_at {
                 Resp::Short(1)
             } else {
                 Resp::All
             });
         }
-        let log = Rc::new(RefCell::new(Log { script: script.into(), writes: vec![] }));
+        let log = Rc::new(RefCell::new(Log { script: script.into(), writes: vec![], data: data.clone(), pre }));
         let mut b: Box<dyn Write> = Box::new(W(log.clone()));
         let res = b.write_colored(col(fg), col(bg), &data);
         let inner: Vec<Value> = log.borrow().writes.iter().map(|(b, t, k)| json!([b, t, k])).collect();
@@ -71,6 +79,21 @@ pub fn replay(path: &str, out: &str) -> Value {
         };
         writeln!(w, "{}", json!({"fg":fg,"bg":bg,"data":data,"inner":inner,"ret":ret,"impl":"dyn"})).unwrap();
         events += 1;
+        // a probe call on a reliable writer right after every scripted call, with ONE colour only: nothing of the previous call -
+        // not even a failed one - may show in it (state carried across calls)
+        {
+            let (pfg, pbg) = if scripts % 2 == 0 { (2u64, 16u64) } else { (16u64, 3u64) };
+            let log = Rc::new(RefCell::new(Log { script: VecDeque::new(), writes: vec![], data: b"p".to_vec(), pre: 1 }));
+            let mut b: Box<dyn Write> = Box::new(W(log.clone()));
+            let res = b.write_colored(col(pfg), col(pbg), b"p");
+            let inner: Vec<Value> = log.borrow().writes.iter().map(|(b, t, k)| json!([b, t, k])).collect();
+            let ret = match &res {
+                Ok(n) => json!(["ok", n]),
+                Err(e) => json!([kind_of(e), 0]),
+            };
+            writeln!(w, "{}", json!({"fg":pfg,"bg":pbg,"data":[112],"inner":inner,"ret":ret,"impl":"dyn (probe after the previous call)"})).unwrap();
+            events += 1;
+        }
         if fail_at == 0 && pre == data.len() && !short_code {
             // reliable writers: Vec<u8> and File implement the trait themselves
             let mut v: Vec<u8> = Vec::new();
